@@ -508,6 +508,9 @@ def check_c07(tier, seed):
     from . import dirchecks
     dirchecks.c07_edges(out, tier)
     foreign_handle_batches(out, tier, seed)
+    # structural mutation at the geometry thresholds (a second directory sector, a second MiniFAT sector whose tail is
+    # released again): what one removal or shrink does to the tables must leave every other entry and stream intact
+    run_batch(out, "thresholds", "A", [h for h in gens.threshold_histories(tier, seed) if "difat" not in h["id"] and "fatgrow" not in h["id"]])
     return finish(out, "model_checking",
                   "handles held open across structural mutation of OTHER entries, then used (library-written files, TLC-generated foreign layouts with red-black "
                   "trees, and layouts carrying tolerated deviations opened permissively); full api / Abs(img) / reopen equality after every step",
